@@ -280,9 +280,17 @@ impl Chunk for MwmoChunk {
             return Ok(Self::new());
         }
 
-        // Read all data
-        let mut data = vec![0u8; size];
-        reader.read_exact(&mut data)?;
+        // Read all data; the buffer grows with what the input really holds, a declared
+        // size beyond the input is an error
+        let mut data = Vec::new();
+        reader.take(size as u64).read_to_end(&mut data)?;
+        if data.len() != size {
+            return Err(std::io::Error::new(
+                std::io::ErrorKind::UnexpectedEof,
+                "MWMO chunk size exceeds the input",
+            )
+            .into());
+        }
 
         // Split by null terminators
         let mut filenames = Vec::new();
